@@ -27,7 +27,7 @@ SUITE="passes"; [ -s /tmp/suite.$$ ] && SUITE="FAILS: $(head -3 /tmp/suite.$$ | 
 # the check(s) against /repo with the patch applied
 git -C /repo apply "$SRC/patch.diff" || { res "cannot apply to /repo"; exit 0; }
 OUT=$(./run.sh "$ID" "$TIER" 2>&1 | grep -E "VIOLATION|KNOWN|ABORT|BUILD|PRE-STEP|CRASH|key=|^$ID " | cut -c1-260 | head -8)
-git -C /repo checkout -- . 
+git -C /repo checkout -- . ; git -C /repo clean -fdq -e pkg/curl/asm/asm
 DIRTY=$(git -C /repo status --short | grep -v 'asm/asm')
 res "demo pristine exit=$P, demo with change exit=$M, suite $SUITE"
 echo "$OUT"
